@@ -1383,6 +1383,9 @@ namespace awkward {
     const int64_t
       axis_wrap_if_negative(int64_t axis) const;
 
+    int64_t
+      axis_wrap_if_negative(int64_t axis, int64_t depth) const;
+
     /// @brief Recursively copies components of the array from main memory to a
     /// GPU (if `ptr_lib == kernel::lib::cuda`) or to main memory (if
     /// `ptr_lib == kernel::lib::cpu`) if those components are not already there.
